@@ -137,6 +137,9 @@ int main(int argc, char** argv)
             // "bb" plan lines may be addressed to one register width (imm = register bytes, 0 = every width)
             if (((kind[0] == 'b' && kind[1] == 'b') || (kind[0] == 'p' && kind[1] == 'm' && strcmp(op, "extract_pair") != 0)) && imm != 0 && reg[pr.first].regbytes != imm)
                 continue;
+            // memory-family lines carry the register width they are meant for in the first byte of operand row 3
+            if (nin[3] > 0 && rows[3][0] != 0 && reg[pr.first].regbytes != rows[3][0])
+                continue;
             static vd::Out o;
             o.len = 0;
             std::string key;
